@@ -414,7 +414,7 @@ func c12BuildRequest(act c12Actual, o c12ReqOpts) *http.Request {
 // ---------------------------------------------------------------------------
 
 type c12Case struct {
-	Kind     string     `json:"kind"` // matrix | repeat | history | overlap | trailers | nameless | timeout
+	Kind     string     `json:"kind"` // matrix | repeat | history | longhist | overlap | trailers | nameless | timeout
 	Name     string     `json:"name,omitempty"`
 	Exp      *c12Side   `json:"exp,omitempty"`
 	Act      *c12Actual `json:"act,omitempty"`
@@ -471,6 +471,8 @@ func c12RunCase(c c12Case) (res c12Result) {
 		c12RunRepeat(c, &res)
 	case "history":
 		c12RunHistory(c, &res)
+	case "longhist":
+		c12RunLongHistory(c, &res)
 	case "overlap":
 		c12RunOverlap(c, &res)
 	case "trailers":
@@ -651,6 +653,138 @@ func c12RunHistory(c c12Case, res *c12Result) {
 	}
 	res.observed = all
 	res.outcome = "history:len=" + strconv.Itoa(len(c.Variant))
+}
+
+// longhist: LONG histories on one server. Variant = decimal N. A (fully matching) request for test T,
+// then N requests for N distinct other tests, then T again - and afterwards the first, the middle and
+// the last of the N others once more, and a name never used. Oracle (property text: feedback naming
+// the test case "for a repeated request of the same test" - at whatever distance): the first request
+// of every name draws no feedback, every later one does, each line starting with its test name.
+type c12LongObs struct {
+	Others            int        `json:"other_tests_in_between"`
+	FirstLines        []string   `json:"first_request_lines"`
+	OthersFlagged     int        `json:"others_flagged_on_first_request"`
+	FirstOtherFlagged string     `json:"first_other_flagged,omitempty"`
+	FirstOtherLines   []string   `json:"first_other_flagged_lines,omitempty"`
+	SecondLines       []string   `json:"second_request_lines"`
+	ProbeNames        []string   `json:"repeated_afterwards"`
+	ProbeLines        [][]string `json:"repeated_afterwards_lines"`
+	FreshLines        []string   `json:"fresh_name_lines"`
+	Requests          int        `json:"requests"`
+	Panic             string     `json:"panic,omitempty"`
+}
+
+func c12LongOtherName(base string, i int) string { return base + "/other-" + strconv.Itoa(i) }
+
+func c12RunLongHistory(c c12Case, res *c12Result) {
+	n, err := strconv.Atoi(c.Variant)
+	if err != nil || n < 0 {
+		panic("longhist: bad variant " + c.Variant)
+	}
+	rig := c12NewRig()
+	act := *c.Act
+	exp := act.c12Side
+	o := c12LongObs{Others: n}
+	send := func(name string) (c12Obs, bool) {
+		obs := rig.serve(c12BuildRequest(act, c12ReqOpts{name: &name, exp: &exp}))
+		o.Requests++
+		if obs.Panic != "" {
+			o.Panic = obs.Panic
+			res.fail("panic:long-history", "middleware panicked at request #%d (test %q) of the history T, %d others, T: %s", o.Requests, name, n, obs.Panic)
+			return obs, false
+		}
+		c12PrefixOK(res, obs.Lines, name, "long-history")
+		if obs.InnerCalls != 1 {
+			res.fail("matching-request-not-served:long-history", "request #%d (test %q, all aspects match) of the history T, %d others, T: inner handler called %d times", o.Requests, name, n, obs.InnerCalls)
+		}
+		return obs, true
+	}
+	defer func() {
+		res.observed = o
+		res.outcome = "longhist:others=" + c12Magnitude(n)
+	}()
+	first, ok := send(c.Name)
+	if !ok {
+		return
+	}
+	o.FirstLines = first.Lines
+	if len(first.Lines) != 0 {
+		res.fail("false-feedback:repeat:long-history", "the very first request of the server (test %q) got feedback %q", c.Name, first.Lines)
+	}
+	for i := 0; i < n; i++ {
+		name := c12LongOtherName(c.Name, i)
+		obs, ok := send(name)
+		if !ok {
+			return
+		}
+		if len(obs.Lines) != 0 {
+			o.OthersFlagged++
+			if o.FirstOtherFlagged == "" {
+				o.FirstOtherFlagged, o.FirstOtherLines = name, obs.Lines
+				res.fail("false-feedback:repeat:long-history", "request #%d is the first for test %q (history: T, then %d distinct other tests) but got feedback %q", o.Requests, name, n, obs.Lines)
+			}
+		}
+	}
+	second, ok := send(c.Name)
+	if !ok {
+		return
+	}
+	o.SecondLines = second.Lines
+	if len(second.Lines) == 0 {
+		res.fail("repeat-not-flagged:long-history", "test %q was requested, then %d distinct other tests, then %q again: the second request got no feedback", c.Name, n, c.Name)
+	}
+	seen := map[int]bool{}
+	for _, i := range []int{0, n / 2, n - 1} {
+		if i < 0 || i >= n || seen[i] {
+			continue
+		}
+		seen[i] = true
+		name := c12LongOtherName(c.Name, i)
+		obs, ok := send(name)
+		if !ok {
+			return
+		}
+		o.ProbeNames, o.ProbeLines = append(o.ProbeNames, name), append(o.ProbeLines, obs.Lines)
+		if len(obs.Lines) == 0 {
+			res.fail("repeat-not-flagged:long-history", "after a history of %d distinct tests, test %q (the %d-th of them) was requested a second time and got no feedback", n+1, name, i+2)
+		}
+	}
+	fresh, ok := send("fresh/" + c.Name)
+	if !ok {
+		return
+	}
+	o.FreshLines = fresh.Lines
+	if len(fresh.Lines) != 0 {
+		res.fail("false-feedback:repeat:long-history", "after a history of %d distinct tests, the first request of a new test got feedback %q", n+1, fresh.Lines)
+	}
+}
+
+// c12Magnitude: outcome class of a history length (number of decimal digits).
+func c12Magnitude(n int) string { return "10^" + strconv.Itoa(len(strconv.Itoa(n))-1) }
+
+// c12LongHistoryLengths: numbers of distinct other tests between the two requests of T: around the
+// powers of two 2^4..2^maxPow2 and the powers of ten 10^2..10^maxPow10 (sizes at which tables,
+// caches and counters are typically resized, rotated or reset), ascending.
+func c12LongHistoryLengths(maxPow2, maxPow10 int) []int {
+	set := map[int]bool{}
+	for k := 4; k <= maxPow2; k++ {
+		for d := -1; d <= 1; d++ {
+			set[1<<k+d] = true
+		}
+	}
+	p := 100
+	for k := 2; k <= maxPow10; k++ {
+		for d := -1; d <= 1; d++ {
+			set[p+d] = true
+		}
+		p *= 10
+	}
+	var out []int
+	for n := range set {
+		out = append(out, n)
+	}
+	sort.Ints(out)
+	return out
 }
 
 // overlap: several fully matching requests are IN FLIGHT AT THE SAME TIME on
@@ -1244,7 +1378,7 @@ var c12Suffixes = []string{"", "H", "M", "S", "m", "u", "n", "x"}
 func TestVerifC12(t *testing.T) {
 	r := rep.New("c12-enum")
 	defer r.Write()
-	r.Rule = "matrix: every (expected side of 864) x (actual request a client can produce: 3 HTTP versions x {Connect POST unary, Connect POST stream, Connect GET, gRPC, gRPC-Web, bare gRPC/gRPC-Web content type} x 2 codecs x 6 compressions (+identity spelled out) x TLS/cert) pair, each a distinct request served by a fresh middleware; test NAMES as a dimension (name alphabet of %-verbs, %%, 100%, blanks, ':', ': ', quotes, backslash, braces, non-ASCII at the start / middle / end of the name and every ordered token pair, x one request per protocol x expected sides + repeat / history / overlap / trailers / bad timeout: every feedback line must start with exactly `<name>: `); plus per actual request: same name twice, name histories up to length 4, 2 and 3 requests in flight at the same time (inner handler parked on a channel; every assignment of same/different test names x every release order; per protocol, Connect also GET), HTTP trailers (2 delivery styles x body drained or not), test name absent/empty. timeouts: per protocol every string up to the tier's length over the 13-character alphabet {0,1,9,H,M,S,m,u,n,+,-,space,x}, digit strings of length 7..12 with every unit/no unit/bad unit, computed boundary numbers (digit limits, MaxInt64/unit +-2, zero padded). Every case is distinct by construction and counted as non-trivial; outcomes = observed classes (silent/flagged by number of deviating aspects, accepted/saturated/rejected by reason)"
+	r.Rule = "matrix: every (expected side of 864) x (actual request a client can produce: 3 HTTP versions x {Connect POST unary, Connect POST stream, Connect GET, gRPC, gRPC-Web, bare gRPC/gRPC-Web content type} x 2 codecs x 6 compressions (+identity spelled out) x TLS/cert) pair, each a distinct request served by a fresh middleware; test NAMES as a dimension (name alphabet of %-verbs, %%, 100%, blanks, ':', ': ', quotes, backslash, braces, non-ASCII at the start / middle / end of the name and every ordered token pair, x one request per protocol x expected sides + repeat / history / overlap / trailers / bad timeout: every feedback line must start with exactly `<name>: `); plus per actual request: same name twice, name histories up to length 4, LONG histories (test T, N distinct other tests, T again, then the first / middle / last of the N again and a fresh name; N = 2^k-1, 2^k, 2^k+1 for k = 4..15 (thorough ..17) and 10^k-1, 10^k, 10^k+1 for k = 2..4 (thorough ..5): the first request of a name is never flagged, every later one is, at whatever distance), 2 and 3 requests in flight at the same time (inner handler parked on a channel; every assignment of same/different test names x every release order; per protocol, Connect also GET), HTTP trailers (2 delivery styles x body drained or not), test name absent/empty. timeouts: per protocol every string up to the tier's length over the 13-character alphabet {0,1,9,H,M,S,m,u,n,+,-,space,x}, digit strings of length 7..12 with every unit/no unit/bad unit, computed boundary numbers (digit limits, MaxInt64/unit +-2, zero padded). Every case is distinct by construction and counted as non-trivial; outcomes = observed classes (silent/flagged by number of deviating aspects, accepted/saturated/rejected by reason)"
 	if err := c12EnumSanity(); err != nil {
 		t.Fatal(err)
 	}
@@ -1292,6 +1426,9 @@ func TestVerifC12(t *testing.T) {
 		r.NonTrivial("")
 		r.Outcome(res.outcome)
 		r.Count("cases:"+c.Kind, 1)
+		if lo, ok := res.observed.(c12LongObs); ok {
+			r.Count("longhist:requests", int64(lo.Requests))
+		}
 		if !sampled[c.Kind] || k%sampleEvery == 1 {
 			sampled[c.Kind] = true
 			r.Sample(map[string]any{"case": c, "observed": res.observed, "outcome": res.outcome})
@@ -1324,6 +1461,28 @@ func TestVerifC12(t *testing.T) {
 	// ---- part 1: matrix and request-level deviations
 	exps := c12ExpectedSides()
 	acts := c12ActualSides()
+
+	// ---- LONG name histories on one server: T, N distinct other tests, T again (+ repeats of some
+	// of the N, + a fresh name), N around the powers of two and ten. quick: Connect, N up to 2^15+1 /
+	// 10^4+1 (45 cases, 230k requests); thorough: every protocol, N up to 2^17+1 / 10^5+1. They come
+	// first, so that a budget stop on a busy machine does not cost them, and longest first, so that
+	// the long ones of a shard do not all come last.
+	{
+		maxPow2, maxPow10 := 15, 4
+		protocols := []int{c12Connect}
+		if thorough {
+			maxPow2, maxPow10 = 17, 5
+			protocols = []int{c12Connect, c12GRPC, c12GRPCWeb}
+		}
+		lengths := c12LongHistoryLengths(maxPow2, maxPow10)
+		r.Extra["long_history_lengths"] = lengths
+		for i := len(lengths) - 1; i >= 0; i-- {
+			for _, p := range protocols {
+				act := c12TimeoutActual(p)
+				run(c12Case{Kind: "longhist", Act: &act, Variant: strconv.Itoa(lengths[i])}, 7)
+			}
+		}
+	}
 
 	// ---- part 0: the test NAME as a dimension. The name is client-supplied text; the property wants
 	// the feedback to name the test case whatever the name looks like. Every name shape (token of the
